@@ -14,7 +14,7 @@
    NUMA plans by the node's total free memory (/repo 476e7d6); before it clause (c) failed. *)
 From Coq Require Import String List ZArith Permutation.
 From Verif Require Import Base.GoFloat Cpumem.Types Cpumem.Schedule Cpumem.Calc Cpumem.SchedCase.
-From Verif Require Import Cpumem.SchedProofsFit Cpumem.SchedProofsTop Cpumem.SchedProofsDeploy Cpumem.SchedProofsCommit Cpumem.SchedProofsExamples.
+From Verif Require Import Cpumem.SchedProofsFit Cpumem.SchedProofsTop Cpumem.SchedProofsDeploy Cpumem.SchedProofsCommit Cpumem.SchedProofsOrder Cpumem.SchedProofsExamples.
 Local Open Scope Z_scope.
 
 (* GetCPUPlans: the whole returned plan list is jointly feasible *)
@@ -105,3 +105,21 @@ Theorem C04_ok_on_model : forall sortf,
   c04_plans_ok info (rq_mem_req req) plans = true.
 Proof. exact plans_ok_on_model. Qed.
 Print Assumptions C04_ok_on_model.
+
+(* since /repo 3d8e6c0 GetCPUPlans visits the NUMA nodes in a fixed order (the nodes holding
+   the origin's cores first, then by id): that order is a duplicate-free permutation of the
+   node's NUMA ids, so the theorems above apply to the code without any order oracle *)
+Theorem C04_visit_order : forall info origin,
+  NoDup (numa_visit_order info origin) /\ Permutation (numa_visit_order info origin) (numa_nodes info).
+Proof. exact (fun info origin => conj (visit_order_nodup info origin) (visit_order_perm info origin)). Qed.
+Print Assumptions C04_visit_order.
+
+Theorem C04_fit_plans_det : forall sortf,
+  (forall l, exists l', sortf l = Ok l' /\ Permutation l' l) ->
+  forall info origin base maxfrag req fuel plans,
+  get_cpu_plans_det_g sortf info origin base maxfrag req fuel = Ok plans ->
+  wf_maps info -> ~ In EmptyString (map snd (nr_numa (ni_cap info))) -> 0 < base ->
+  0 <= rq_mem_req req -> 0 <= nr_mem (get_available_nofloat info) ->
+  fits info (rq_mem_req req) plans.
+Proof. exact plans_fit_det. Qed.
+Print Assumptions C04_fit_plans_det.
